@@ -215,7 +215,7 @@ type c02Scenario struct {
 	iTop     []*c02Typedef
 	mIdents  []c02Ident
 	iIdents  []c02Ident
-	mOrder   []int    // order the identities of m / i are written in (an identity may precede its base)
+	mOrder   []int // order the identities of m / i are written in (an identity may precede its base)
 	iOrder   []int
 	idShape  string   // how the hierarchy of i was grown
 	probes   []string // texts tried against the identityref type (identity names, qualified or not, unknown names)
